@@ -72,6 +72,10 @@ def run(tier, seed, replay=None):
     pairs = []
     for _ in range(n // 4):
         pairs += shorthand_pairs(rng, w)
+    # the long forms are printed and read back as well (a printer may choose the shorthand)
+    texts += [b for a, b in pairs] + ["(reval 'a 1)", '(reval ,e 1)', '(reval a@1 2)', "(slice 'a 1)", '(quote (reval a 1))',
+                                      '(reval (quote a) k)', '`(reval ,sig 1)', '(reval `a 2)']
+    texts = [t for t in texts if not any(x in t for x in ('~true', '#true', '~load', '#load', '~false', '#false'))]
     cases = []
     per = 40
     for k in range(0, len(texts), per):
